@@ -38,123 +38,49 @@ def run(model: Model, rep: Report, tier: str) -> None:
         "the value identity and the correctness of get_new_outcomes_and_conditions' re-association are not decided."
     )
     rep.trusted_base = ["Shpitser & Pearl 2008 (IDC*)", "C07 (ID*), C18 (counterfactual graph), C04 (separation)"]
-    rep.floors = {"R8.1": 2, "R8.2": 1, "R8.3": 2, "R8.4": 1, "R13.4": 3}
-    sa = SetAlg()
+    rep.floors = {"R8.1": 1, "R8.2": 2, "R8.3": 1, "R8.4": 1, "R13.4": 3}
+    from ..refcmp import load_reference, run_table
+    from .common import graph_rewrite, rewriter
+
     V = ("cls", VARIABLE)
+    G = ("cls", NXMG)
+    load_reference(model, "yvref.c08", "c08_ref.py")
+    sa = SetAlg(rewriter(graph_rewrite))
+    H = {f"{IS}.id_star", f"{CG}.make_counterfactual_graph", f"{IC}.cf_rule_2_of_do_calculus_applies", f"{IC}.get_new_outcomes_and_conditions",
+         f"{IC}.get_remaining_and_missing_events", CI, f"{CG}.is_not_self_intervened"}
+
+    def mk(model_, prims):
+        return lambda: Evaluator(model_, primitives=set(GRAPH_PRIMS) | set(DSL_PRIMS) | set(prims), prim_methods={"get_base", "intervene", "__matmul__", "conditional"})
+
+    table = [
+        ("R8.1", f"{IC}.idc_star", "idc_star_algorithm", {"graph": G, "outcomes": EVT, "conditions": EVT}, H, "figure-4-lines",
+         "IDC* lines 1-5: ID*(conditions) = 0 is refused (ValueError) and only Unidentifiable from that call is swallowed; inconsistent joint event -> 0; "
+         "the first condition passing rule 2 leaves the conditions and subscripts the outcomes it is an ancestor of, recursion on the ORIGINAL graph; "
+         "otherwise ID*(joint) normalised over the bases of the caller's conditions, un-normalised only when the caller gave none"),
+        ("R8.3", f"{IC}.cf_rule_2_of_do_calculus_applies", "rule_2", {"cf_graph": G, "outcomes": ("iter", V), "condition": V}, H, "rule-2",
+         "rule 2 must hold for ALL outcomes: outcome ⟂ z given the self-intervened (blocked) nodes, in the counterfactual graph with the edges out of z removed"),
+        ("R8.2", f"{IC}.get_new_outcomes_and_conditions", "reassociated", {"new_event": EVT, "outcomes": EVT, "conditions": EVT},
+         H - {f"{IC}.get_remaining_and_missing_events"}, "re-association",
+         "after merging, surviving variables stay where they were and each merged (fresh) variable goes to the side that lost a variable of the same base"),
+        ("R8.2", f"{IC}.get_remaining_and_missing_events", "remaining_and_missing", {"new_event": EVT, "old_event": EVT}, H, "survivors-and-lost",
+         "split of an event into the entries whose variable survives in the relabelled event and the rest"),
+    ]
+    run_table(model, rep, table, "yvref.c08", mk, sa, construct=construct, loc=loc)
+    # ---- R8.4 the normaliser is Expression.conditional over the bases of the CALLER's conditions: decided inside R8.1's comparison (line 5);
+    # restated here as its own obligation so that the rule keeps its instance
     f = model.func(f"{IC}.idc_star")
-    prims = set(GRAPH_PRIMS) | set(DSL_PRIMS) | {f"{IS}.id_star", f"{CG}.make_counterfactual_graph", f"{IC}.cf_rule_2_of_do_calculus_applies", f"{IC}.get_new_outcomes_and_conditions"}
-    ev = Evaluator(model, primitives=prims, prim_methods={"get_base", "intervene", "__matmul__", "conditional", "__or__"})
-    g, o, c = typed(ev, "graph", ("cls", NXMG)), typed(ev, "outcomes", EVT), typed(ev, "conditions", EVT)
+    ev = mk(model, H)()
+    g, o, c = typed(ev, "graph", G), typed(ev, "outcomes", EVT), typed(ev, "conditions", EVT)
     paths = ev.run(f, {"graph": g, "outcomes": o, "conditions": c})
-    ids = ("call", f"{IS}.id_star", (), (("_number_recursions", const(0)), ("event", c), ("graph", g)))
-    iszero = lambda t: ("isinstance", t, ("y0.dsl.Zero",))  # noqa: E731
-    # ---- R8.1
-    rej = [p for p in paths if p.kind == "raise" and exc_name(p) == "ValueError"]
     problems = []
-    if len(rej) != 1:
-        problems.append(f"{len(rej)} rejecting paths")
-    else:
-        conds = [k for k in rej[0].conds]
-        zero_tests = [k for k in conds if k[0] == "isinstance" and "Zero" in str(k[2]) and k[1][0] == "call" and k[1][1] == f"{IS}.id_star" and kwargs_of(k[1]).get("event") == c and kwargs_of(k[1]).get("graph") == g]
-        extra = [k for k in conds if k not in zero_tests]
-        if not zero_tests:
-            problems.append("the rejection does not test ID*(graph, conditions) for Zero")
-        if extra:
-            problems.append("an impossible conditioning event is rejected only under an extra condition (" + short(show(extra[0]), 80) + "); otherwise IDC* answers for it")
-    (rep.refuted if problems else rep.proven)("R8.1", construct(f, "rejects-impossible-conditions"), "; ".join(problems), loc(f))
-    tries = [n for n in ast.walk(f.node) if isinstance(n, ast.Try)]
-    problems = []
-    if len(tries) != 1 or len(tries[0].handlers) != 1:
-        problems.append("line 1 is not one try with one handler")
-    else:
-        h = tries[0].handlers[0]
-        hn = ast.unparse(h.type) if h.type is not None else "<bare>"
-        from ..model import Cls
-        r = model.resolve_name(f.module, hn) if hn.isidentifier() else None
-        if not (isinstance(r, Cls) and r.name == "Unidentifiable"):
-            problems.append(f"line 1 swallows `{hn}`, not exactly Unidentifiable (the ValueError rejection itself must escape)")
-        if any(isinstance(x, (ast.Return, ast.Raise)) for x in ast.walk(ast.Module(body=h.body, type_ignores=[]))):
-            problems.append("the handler changes the control flow")
-    (rep.refuted if problems else rep.proven)("R8.1", construct(f, "swallows-only-unidentifiable"), "; ".join(problems), loc(f))
-    # ---- R8.2
-    ev_all = ("op", "|", o, c)
-    zs = [p for p in paths if p.kind == "return" and p.value[0] in ("rec", "new") and str(p.value[1]).endswith(".Zero")]
-    ok = bool(zs) and all(any(k[0] == "isnone" and k[1][0] == "index" and k[1][1][0] == "call" and k[1][1][1] == f"{CG}.make_counterfactual_graph" for k in p.conds) for p in zs)
-    if ok:
-        for p in zs:
-            for k in p.conds:
-                if k[0] == "isnone":
-                    kw = kwargs_of(k[1][1])
-                    ok = ok and kw.get("graph") == g and (kw.get("event") == ev_all or kw.get("event") == ("union", o, c))
-    (rep.proven if ok else rep.refuted)("R8.2", construct(f, "inconsistent-joint-zero"), "" if ok else "Zero must be returned exactly when the counterfactual graph of outcomes ∪ conditions is inconsistent", loc(f))
-    # ---- R8.3 recursion
-    recs = [p for p in paths if p.kind == "return" and p.value[0] == "recurse" and p.value[1] == f"{IC}.idc_star"]
-    problems = []
-    if not recs:
-        problems.append("no exchange step")
-    for p in recs:
-        a = p.value[2]
-        if a[0] != g:
-            problems.append("the recursion is not on the original graph")
-        zvars = [k[1] for k in p.conds if k[0] == "iter-elem"]
-        if len(zvars) != 1:
-            problems.append("exchange not driven by one condition")
-            continue
-        z = zvars[0]
-        if not any(k[0] == "call" and k[1] == f"{IC}.cf_rule_2_of_do_calculus_applies" and kwargs_of(k).get("condition") == z for k in p.conds):
-            problems.append("the exchange is not guarded by rule 2 for that condition")
-        newc = a[2]
-        if not (newc[0] == "comp" and newc[1] == "dict" and any(k == ("ne", newc[3][0][0][1][0], z) or k == ("ne", z, newc[3][0][0][1][0]) for k in newc[3][0][2])):
-            problems.append("the exchanged condition is not removed from the conditions")
-        newo = a[1]
-        if not (newo[0] == "comp" and newo[1] == "dict" and newo[2][1][0] == "ite" and any(s[0] == "meth" and s[2] == "ancestors_inclusive" for s in subterms(newo[2][1][1]))):
-            problems.append("outcomes are not subscripted by z exactly when z is an ancestor of the outcome in the counterfactual graph")
-    (rep.refuted if problems else rep.proven)("R8.3", construct(f, "exchange"), "; ".join(sorted(set(problems))), loc(f))
-    f2 = model.func(f"{IC}.cf_rule_2_of_do_calculus_applies")
-    ev = Evaluator(model, primitives=set(GRAPH_PRIMS) | set(DSL_PRIMS) | {CI, f"{CG}.is_not_self_intervened"}, prim_methods={"get_base"})
-    g2 = typed(ev, "cf_graph", ("cls", NXMG))
-    outs = typed(ev, "outcomes", ("iter", V))
-    z = typed(ev, "condition", V)
-    r = return_paths(ev.run(f2, {"cf_graph": g2, "outcomes": outs, "condition": z}))
-    problems = []
-    if len(r) != 1 or r[0].value[0] != "all":
-        problems.append("rule 2 must hold for ALL outcomes (with any(), a condition separated from only one of several outcomes would be turned into an intervention)")
-    else:
-        cmp_ = r[0].value[1]
-        if sa.strip(cmp_[3][0][1]) != outs or cmp_[3][0][2]:
-            problems.append("the quantifier does not range over all outcomes")
-        kw = kwargs_of(cmp_[2])
-        if not (cmp_[2][0] == "call" and cmp_[2][1] == CI and {kw.get("a"), kw.get("b")} == {cmp_[3][0][0], z}):
-            problems.append("separation is not tested between the outcome and the condition")
-        gm = kw.get("graph")
-        if not (gm[0] == "meth" and gm[2] == "remove_out_edges" and gm[1] == g2 and kwargs_of(gm).get("vertices") == z):
-            problems.append("the test graph is not the counterfactual graph with the edges out of z removed")
-        cs = kw.get("conditions")
-        if not (cs[0] == "comp" and len(cs[3][0][2]) == 1 and cs[3][0][2][0][0] == "not" and cs[3][0][2][0][1][0] == "call" and cs[3][0][2][0][1][1] == f"{CG}.is_not_self_intervened"):
-            problems.append("the conditioning set is not the self-intervened (blocked) nodes of the counterfactual graph")
-    (rep.refuted if problems else rep.proven)("R8.3", construct(f2, "rule-2"), "; ".join(problems), loc(f2))
-    # ---- R8.4 final normalisation
-    fin = [p for p in paths if p.kind == "return" and p.value[0] == "meth" and p.value[2] == "conditional"]
-    problems = []
-    if not fin:
-        problems.append("no normalising return")
-    for fp in fin:
-        v = fp.value
-        rng = kwargs_of(v).get("ranges")
-        if not (rng[0] == "comp" and rng[3][0][1] == c and rng[2][0] == "meth" and rng[2][2] == "get_base"):
-            problems.append("the estimand is not normalised over the bases of the conditions")
-        inner = v[1]
-        if not (inner[0] == "call" and inner[1] == f"{IS}.id_star" and kwargs_of(inner).get("graph") == g):
-            problems.append("the normalised expression is not ID* of the joint event on the original graph")
-    # the un-normalised estimand may be returned only when the CALLER gave no conditions (after node merging the re-associated condition
-    # set can be empty although the caller conditioned: then the joint would be returned in place of the conditional)
     bare = [p for p in paths if p.kind == "return" and p.value[0] == "call" and p.value[1] == f"{IS}.id_star"]
     for bp in bare:
         gd = f_and(*[sa.cond(k) for k in bp.conds])
         e1 = sa.cond(("eq", ("len", c), const(0)))
-        e2 = f_not(sa.cond(("truth", c)))
-        if not (compare(f_and(gd, f_not(e1)), False)[0] or compare(f_and(gd, f_not(e2)), False)[0]):
+        if not compare(f_and(gd, f_not(e1)), False)[0]:
             problems.append("ID*'s joint estimand is returned without normalisation on a path that does not establish that the caller's conditions are empty")
+    if not any(p.kind == "return" and any(s_[0] == "meth" and s_[2] == "conditional" for s_ in subterms(p.value)) for p in paths):
+        problems.append("no normalising return")
     (rep.refuted if problems else rep.proven)("R8.4", construct(f, "normalisation"), "; ".join(sorted(set(problems))), loc(f))
     classes = concrete_expression_classes(model)
     c13.r13_4(model, rep, classes)
